@@ -85,7 +85,9 @@ def third_party(a):
                                                               {"Format": PF.PaintRotate, "angle": 15, "Paint": {"Format": PF.PaintGlyph, "Glyph": "L", "Paint": lin}}]},
                 # ... directly chained transform paints that do not commute (translate, then scale)
                 "B": {"Format": PF.PaintColrLayers, "Layers": [{"Format": PF.PaintTranslate, "dx": 140, "dy": -60, "Paint": {"Format": PF.PaintScale, "scaleX": 0.6, "scaleY": 0.6, "Paint": {"Format": PF.PaintGlyph, "Glyph": "L", "Paint": solid(0xFFFF, 0.7)}}},
-                                                              {"Format": PF.PaintGlyph, "Glyph": "T", "Paint": solid(0)}]}}
+                                                              # ... a gradient of its own first, then the very gradient glyph A uses (each glyph's SVG document has to define it itself)
+                                                              {"Format": PF.PaintGlyph, "Glyph": "T", "Paint": dict(lin, ColorLine={"ColorStop": [(0, 2), (1, 0)], "Extend": "pad"})},
+                                                              {"Format": PF.PaintRotate, "angle": 15, "Paint": {"Format": PF.PaintGlyph, "Glyph": "L", "Paint": lin}}]}}
         if a["zero_width"]:
             colr["mark"] = {"Format": PF.PaintGlyph, "Glyph": "mark", "Paint": solid(1)}
     else:
